@@ -8,15 +8,16 @@
 // Whawty/Props/GenScan.lean cannot be proved any more (a broken proof obligation).
 //
 // Semantics assumed (trusted, reviewed with this file):
-//   int arithmetic     only +, on non-negative values            -> Nat
-//   len(x)             -> x.length
-//   x[a:b], x[a:]      -> Gen.slice x a b, x.drop a              (Go panics when out of range: the
-//                          generated code is only meaningful where the Go code does not panic; the
-//                          tie theorem is stated for all inputs, and `slice` is total)
-//   int(binary.BigEndian.Uint16(e))  -> Gen.be16of e
-//   errors.New(..), fmt.Errorf(..)   -> an error (true); nil in an error position -> false
-//   nil in a []byte position         -> none; a slice -> some
-//   named constants of the package   -> their literal values
+//
+//	int arithmetic     only +, on non-negative values            -> Nat
+//	len(x)             -> x.length
+//	x[a:b], x[a:]      -> Gen.slice x a b, x.drop a              (Go panics when out of range: the
+//	                       generated code is only meaningful where the Go code does not panic; the
+//	                       tie theorem is stated for all inputs, and `slice` is total)
+//	int(binary.BigEndian.Uint16(e))  -> Gen.be16of e
+//	errors.New(..), fmt.Errorf(..)   -> an error (true); nil in an error position -> false
+//	nil in a []byte position         -> none; a slice -> some
+//	named constants of the package   -> their literal values
 package main
 
 import (
@@ -31,15 +32,62 @@ type trType int
 const (
 	tNat trType = iota
 	tBool
-	tBytes
+	tBytes // []byte
 	tErr
+	tStr // string (Bytes in Lean; never nil)
 )
 
 type translator struct {
-	consts  map[string]int
-	vars    map[string]trType
-	results []trType
-	err     string
+	consts   map[string]int
+	sconsts  map[string]string
+	vars     map[string]trType
+	results  []trType
+	resNames []string // named results ("" when unnamed)
+	err      string
+}
+
+var leanTy = map[trType]string{tNat: "Nat", tBool: "Bool", tBytes: "Bytes", tErr: "Bool", tStr: "Bytes"}
+
+// library calls of the subset: package.selector -> (lean function of the prelude, argument types, result type)
+var libCalls = map[string]struct {
+	lean string
+	args []trType
+	res  trType
+}{
+	"filepath.Ext":           {"Gen.pathExt", []trType{tStr}, tStr},
+	"strings.TrimSuffix":     {"Gen.trimSuffix", []trType{tStr, tStr}, tStr},
+	"userNameRe.MatchString": {"Gen.userNameReMatch", []trType{tStr}, tBool},
+}
+
+// typeOf: the type of an expression of the subset as far as comparisons and switch tags need it.
+func (t *translator) typeOf(e ast.Expr) trType {
+	switch x := e.(type) {
+	case *ast.ParenExpr:
+		return t.typeOf(x.X)
+	case *ast.BasicLit:
+		if x.Kind == token.STRING {
+			return tStr
+		}
+	case *ast.Ident:
+		if ty, ok := t.vars[x.Name]; ok {
+			return ty
+		}
+		if _, ok := t.sconsts[x.Name]; ok {
+			return tStr
+		}
+		if x.Name == "true" || x.Name == "false" {
+			return tBool
+		}
+	case *ast.CallExpr:
+		if sel, ok := x.Fun.(*ast.SelectorExpr); ok {
+			if lc, ok := libCalls[exprString(sel)]; ok {
+				return lc.res
+			}
+		}
+	case *ast.SliceExpr:
+		return t.typeOf(x.X)
+	}
+	return tNat
 }
 
 func (t *translator) fail(format string, a ...interface{}) string {
@@ -58,7 +106,7 @@ func goType(e ast.Expr) (trType, bool) {
 		case "bool":
 			return tBool, true
 		case "string":
-			return tBytes, true
+			return tStr, true
 		case "error":
 			return tErr, true
 		}
@@ -105,7 +153,7 @@ func (t *translator) expr(e ast.Expr, want trType) string {
 		if x.Kind == token.INT && want == tNat {
 			return x.Value
 		}
-		if x.Kind == token.STRING && want == tBytes {
+		if x.Kind == token.STRING && (want == tBytes || want == tStr) {
 			s, _ := litString(x)
 			return leanBytes(s)
 		}
@@ -120,10 +168,13 @@ func (t *translator) expr(e ast.Expr, want trType) string {
 			break
 		}
 		if ty, ok := t.vars[x.Name]; ok {
-			if ty != want {
+			if ty != want && !(isBytesLike(ty) && isBytesLike(want)) {
 				return t.fail("variable %s used at another type", x.Name)
 			}
 			return x.Name
+		}
+		if v, ok := t.sconsts[x.Name]; ok && isBytesLike(want) {
+			return leanBytes(v)
 		}
 		if v, ok := t.consts[x.Name]; ok && want == tNat {
 			return fmt.Sprint(v)
@@ -131,6 +182,15 @@ func (t *translator) expr(e ast.Expr, want trType) string {
 	case *ast.CallExpr:
 		if c, ok := isCall(e, "", "len"); ok && want == tNat && len(c.Args) == 1 {
 			return "(" + t.expr(c.Args[0], tBytes) + ").length"
+		}
+		if sel, ok := x.Fun.(*ast.SelectorExpr); ok {
+			if lc, ok := libCalls[exprString(sel)]; ok && len(x.Args) == len(lc.args) && (lc.res == want || (isBytesLike(lc.res) && isBytesLike(want))) {
+				out := "(" + lc.lean
+				for i, a := range x.Args {
+					out += " " + paren(t.expr(a, lc.args[i]))
+				}
+				return out + ")"
+			}
 		}
 		if c, ok := isCall(e, "", "int"); ok && want == tNat && len(c.Args) == 1 {
 			return t.expr(c.Args[0], tNat)
@@ -145,7 +205,7 @@ func (t *translator) expr(e ast.Expr, want trType) string {
 			return "true"
 		}
 	case *ast.SliceExpr:
-		if want == tBytes && x.Max == nil {
+		if isBytesLike(want) && x.Max == nil {
 			base := t.expr(x.X, tBytes)
 			lo := "0"
 			if x.Low != nil {
@@ -174,12 +234,26 @@ func (t *translator) expr(e ast.Expr, want trType) string {
 		case token.LSS, token.LEQ, token.GTR, token.GEQ, token.EQL, token.NEQ:
 			if want == tBool {
 				op := map[token.Token]string{token.LSS: "<", token.LEQ: "≤", token.GTR: ">", token.GEQ: "≥", token.EQL: "=", token.NEQ: "≠"}[x.Op]
-				// operands: ints (the only comparisons of the subset)
-				return "(decide (" + t.expr(x.X, tNat) + " " + op + " " + t.expr(x.Y, tNat) + "))"
+				// operands: ints, or strings for == and !=
+				ot := tNat
+				if (x.Op == token.EQL || x.Op == token.NEQ) && (isBytesLike(t.typeOf(x.X)) || isBytesLike(t.typeOf(x.Y))) {
+					ot = tStr
+				}
+				return "(decide (" + t.expr(x.X, ot) + " " + op + " " + t.expr(x.Y, ot) + "))"
 			}
 		}
 	}
 	return t.fail("expression outside the subset at type %d: %T", want, e)
+}
+
+func isBytesLike(t trType) bool { return t == tBytes || t == tStr }
+
+func copyVars(m map[string]trType) map[string]trType {
+	out := map[string]trType{}
+	for k, v := range m {
+		out[k] = v
+	}
+	return out
 }
 
 func paren(s string) string {
@@ -214,6 +288,18 @@ func terminates(stmts []ast.Stmt) bool {
 			return terminates([]ast.Stmt{x.Else})
 		}
 		return terminates(x.Body.List) && terminates(eb.List)
+	case *ast.SwitchStmt:
+		hasDefault := false
+		for _, c := range x.Body.List {
+			cc := c.(*ast.CaseClause)
+			if cc.List == nil {
+				hasDefault = true
+			}
+			if !terminates(cc.Body) {
+				return false
+			}
+		}
+		return hasDefault
 	}
 	return false
 }
@@ -226,10 +312,19 @@ func (t *translator) stmts(list []ast.Stmt, ind string) string {
 	head, rest := list[0], list[1:]
 	switch x := head.(type) {
 	case *ast.ReturnStmt:
-		if len(x.Results) != len(t.results) {
-			return t.fail("bare or short return")
-		}
 		var parts []string
+		if len(x.Results) == 0 && len(t.resNames) == len(t.results) && len(t.results) > 0 && t.resNames[0] != "" {
+			for i, n := range t.resNames {
+				if t.results[i] == tBytes {
+					return t.fail("bare return of a []byte result")
+				}
+				parts = append(parts, n)
+			}
+			return "(" + strings.Join(parts, ", ") + ")"
+		}
+		if len(x.Results) != len(t.results) {
+			return t.fail("short return")
+		}
 		for i, r := range x.Results {
 			switch t.results[i] {
 			case tBytes:
@@ -244,6 +339,15 @@ func (t *translator) stmts(list []ast.Stmt, ind string) string {
 		}
 		return "(" + strings.Join(parts, ", ") + ")"
 	case *ast.AssignStmt:
+		if x.Tok == token.ASSIGN && len(x.Lhs) == 1 && len(x.Rhs) == 1 {
+			// assignment to a local or a named result: the rest of the path sees the new value
+			if id, ok := x.Lhs[0].(*ast.Ident); ok {
+				if ty, ok := t.vars[id.Name]; ok && ty != tBytes {
+					v := t.expr(x.Rhs[0], ty)
+					return fmt.Sprintf("let %s : %s := %s\n%s%s", id.Name, leanTy[ty], v, ind, t.stmts(rest, ind))
+				}
+			}
+		}
 		if x.Tok == token.DEFINE && len(x.Lhs) == 1 && len(x.Rhs) == 1 {
 			id, ok := x.Lhs[0].(*ast.Ident)
 			if !ok {
@@ -257,6 +361,52 @@ func (t *translator) stmts(list []ast.Stmt, ind string) string {
 			t.vars[id.Name] = tNat
 			return fmt.Sprintf("let %s : Nat := %s\n%s%s", id.Name, v, ind, t.stmts(rest, ind))
 		}
+	case *ast.SwitchStmt:
+		if x.Init != nil || x.Tag == nil {
+			break
+		}
+		tagTy := t.typeOf(x.Tag)
+		tag := t.expr(x.Tag, tagTy)
+		saved := map[string]trType{}
+		for k, v := range t.vars {
+			saved[k] = v
+		}
+		var def *ast.CaseClause
+		out := ""
+		closing := ""
+		for _, c := range x.Body.List {
+			cc := c.(*ast.CaseClause)
+			if cc.List == nil {
+				def = cc
+				continue
+			}
+			for _, st := range cc.Body {
+				if b, ok := st.(*ast.BranchStmt); ok && b.Tok == token.FALLTHROUGH {
+					return t.fail("fallthrough")
+				}
+			}
+			var conds []string
+			for _, ce := range cc.List {
+				conds = append(conds, "(decide ("+tag+" = "+t.expr(ce, tagTy)+"))")
+			}
+			body := cc.Body
+			if !terminates(body) {
+				body = append(append([]ast.Stmt{}, body...), rest...)
+			}
+			t.vars = copyVars(saved)
+			out += fmt.Sprintf("if (%s) = true then\n%s  %s\n%selse ", strings.Join(conds, " || "), ind, t.stmts(body, ind+"  "), ind)
+		}
+		var body []ast.Stmt
+		if def != nil {
+			body = def.Body
+		}
+		if !terminates(body) {
+			body = append(append([]ast.Stmt{}, body...), rest...)
+		}
+		t.vars = copyVars(saved)
+		out += "\n" + ind + "  " + t.stmts(body, ind+"  ") + closing
+		t.vars = saved
+		return out
 	case *ast.IfStmt:
 		if x.Init != nil {
 			break
@@ -295,15 +445,14 @@ func (t *translator) stmts(list []ast.Stmt, ind string) string {
 
 // translateFunc finds the function and produces a Lean definition `name` of type
 // Option (params → results as a tuple).
-func translateFunc(f *ast.File, fset *token.FileSet, name, leanName string, consts map[string]int) string {
+func translateFunc(f *ast.File, fset *token.FileSet, name, leanName, failType string, consts map[string]int, sconsts map[string]string) string {
 	var fd *ast.FuncDecl
 	for _, d := range f.Decls {
 		if x, ok := d.(*ast.FuncDecl); ok && x.Name.Name == name && x.Recv == nil {
 			fd = x
 		}
 	}
-	leanTy := map[trType]string{tNat: "Nat", tBool: "Bool", tBytes: "Bytes", tErr: "Bool"}
-	t := &translator{consts: consts, vars: map[string]trType{}}
+	t := &translator{consts: consts, sconsts: sconsts, vars: map[string]trType{}}
 	var params, ptypes, rtypes []string
 	if fd == nil {
 		t.fail("function %s not found", name)
@@ -328,6 +477,11 @@ func translateFunc(f *ast.File, fset *token.FileSet, name, leanName string, cons
 				k := max(len(r.Names), 1)
 				for i := 0; i < k; i++ {
 					t.results = append(t.results, ty)
+					if i < len(r.Names) {
+						t.resNames = append(t.resNames, r.Names[i].Name)
+					} else {
+						t.resNames = append(t.resNames, "")
+					}
 					if ty == tBytes {
 						rtypes = append(rtypes, "Option Bytes")
 					} else {
@@ -339,13 +493,26 @@ func translateFunc(f *ast.File, fset *token.FileSet, name, leanName string, cons
 	}
 	body := ""
 	if t.err == "" {
-		body = t.stmts(fd.Body.List, "    ")
+		// named results start at their zero values
+		prefix := ""
+		for i, n := range t.resNames {
+			if n == "" {
+				continue
+			}
+			zero := map[trType]string{tNat: "0", tBool: "false", tErr: "false", tStr: "[]"}[t.results[i]]
+			if t.results[i] == tBytes {
+				continue // usable in explicit returns only (nil vs slice is not tracked through variables)
+			}
+			t.vars[n] = t.results[i]
+			prefix += fmt.Sprintf("let %s : %s := %s\n    ", n, leanTy[t.results[i]], zero)
+		}
+		body = prefix + t.stmts(fd.Body.List, "    ")
 	}
 	var w strings.Builder
 	if t.err != "" {
 		// the shape is kept so that the tie theorem is stated, and fails
 		fmt.Fprintf(&w, "/-- NOT TRANSLATED: %s -/\n", strings.ReplaceAll(t.err, "-/", "- /"))
-		fmt.Fprintf(&w, "def %s : Option (Bytes → Bool → Nat × Option Bytes × Bool) := none\n", leanName)
+		fmt.Fprintf(&w, "def %s : Option (%s) := none\n", leanName, failType)
 		return w.String()
 	}
 	pos := fset.Position(fd.Pos())
